@@ -147,6 +147,34 @@ def run_offset_rules(ctx, rep):
             rep.check(good, "R3.2", "R3.2|%s|payload_size_arg" % p.split("::")[-1], "load_payload_raw(payload_size() of the returned RDH)", p,
                       "load_payload_raw is called with %s" % show_origin(c[2][1])[:200])
 
+    # ---- R3.2c the same on the inlined scanner (helper methods expanded): the primitive tracker writers are
+    #      executed exactly once per packet on every path — independent of how the code is split into helpers
+    from ..mir import inline_fn, path_count_range
+    ISP = AP + "input_scanner::InputScanner::<R>::"
+    lc = SCAN + "load_cdp"
+    if lc in f.fns:
+        bi = Body(inline_fn(f, lc, lambda c: c.startswith(ISP)))
+        prim = [bb for bb, t, cal, c in bi.calls() if cal in (TRK + "::next", TRK + "::update_mem_address")]
+        prodb = [bb for bb, t, cal, c in bi.calls() if cal and cal.endswith("::load_rdh_cru")]
+        oks = [i_ for i_, j_, st in bi.stmts() if st["k"] == "assign" and st["rv"]["k"] == "agg" and st["rv"].get("ak") == "tuple" and len(st["rv"]["ops"]) == 3]
+        r = path_count_range(bi, bi.blocks[prodb[0]]["t"]["t"], oks, prim) if len(prodb) == 1 and oks else None
+        rep.check(r == (1, 1), "R3.2", "R3.2|load_cdp|advance_exactly_once", "on every path from the RDH producer to the returned tuple the tracker is advanced exactly once (%d primitive sites)" % len(prim), lc,
+                  "load_cdp (helpers inlined): the tracker is advanced %s times on the paths from load_rdh_cru to the returned tuple" % (r,))
+    ln = SCAN + "load_next_rdh_to_filter"
+    if ln in f.fns:
+        bi = Body(inline_fn(f, ln, lambda c: c.startswith(ISP)))
+        prim = [bb for bb, t, cal, c in bi.calls() if cal == TRK + "::next"]
+        loads = [bb for bb, t, cal, c in bi.calls() if cal and cal.endswith("SerdeRdh::load")]
+        if len(loads) == 1:
+            L = loads[0]
+            r_entry = path_count_range(bi, 0, [L], prim)
+            r_loop = path_count_range(bi, bi.blocks[L]["t"]["t"], [L], prim)
+            rep.check(r_entry == (1, 1) and r_loop == (1, 1), "R3.2", "R3.2|filter_loop|advance_exactly_once",
+                      "the tracker is advanced exactly once before the first load and exactly once per skipped RDH", ln,
+                      "load_next_rdh_to_filter (helpers inlined): tracker advances before the first load %s, per loop iteration %s" % (r_entry, r_loop))
+        else:
+            rep.bad("R3.2", "R3.2|filter_loop|advance_exactly_once", "expected one RDH load in the filter loop, found %d" % len(loads), ln)
+
     # ---- R3.2b filter-skip loop: each iteration advances by that RDH's offset
     p = SCAN + "load_next_rdh_to_filter"
     if p in f.fns:
